@@ -405,8 +405,8 @@ def _c12_lis_empty_pass(v):
     w = v.get('witness') or {}
     r = w.get('result') or {}
     fr = (w.get('facts') or {}).get('frames_per_log_pass') or []
-    return (v['monitor'] == 'valid_files_converted' and w.get('converter') == 'lis' and 0 in fr and r.get('exception') is True
-            and r.get('las_count') == 0)
+    # las_count counts the logical files written before the frameless one was reached
+    return v['monitor'] == 'valid_files_converted' and w.get('converter') == 'lis' and 0 in fr and r.get('exception') is True
 
 
 LEVEL_TEXT = ('The real batch converters are run in child processes on generated directories (valid + damaged + foreign files) sequentially, '
